@@ -389,21 +389,22 @@ func (w *deltaWalk) checkDelta(old, nw, d interface{}, path string) string {
 	return wantReplacement(nw, d, path)
 }
 
-// wantReplacement: d must be the replacement encoding of nw (raw pass-through scalar, else a one-element array);
-// the wrapped value itself is checked by the round trip.
+// wantReplacement: d must be a replacement encoding of nw: a one-element array, or - for a scalar - the raw value
+// (which types markReplaced sends raw is its business: both forms merge to the same value).  The value itself
+// is checked by the round trip.
 func wantReplacement(nw, d interface{}, path string) string {
+	if a, ok := d.([]interface{}); ok && len(a) == 1 {
+		return ""
+	}
 	switch nw.(type) {
 	case bool, int, int8, int16, int32, int64, uint, uint8, uint16, uint32, uint64, float32, float64, string:
 		switch d.(type) {
 		case bool, float64, string:
 			return ""
 		}
-		return path + ": scalar replacement not sent raw"
+		return path + ": scalar replacement neither raw nor wrapped"
 	}
-	if a, ok := d.([]interface{}); !ok || len(a) != 1 {
-		return path + ": complex replacement not wrapped in a one-element array"
-	}
-	return ""
+	return path + ": complex replacement not wrapped in a one-element array"
 }
 
 // ---- well-formed deltas (for the agreement of the two clients) ----
